@@ -255,7 +255,7 @@ class Replay(object):
     def judge(self, name, group, val, special, obs, pyctx, snap, data=None, data_out=None, **kw):
         """compare an observed outcome (+ context afterwards) with the allowed ones"""
         rec = group[0]
-        exps = self.expected_values(group, val, special)
+        exps = kw.pop("exps", None) or self.expected_values(group, val, special)
         if cl.has_cycle(pyctx):
             self.fail("%s:context-contains-itself" % name, rec, context=snap, **kw)
             return False
@@ -417,14 +417,170 @@ class Replay(object):
             self.ncalls += 1
             self.judge(route, group, val, special, obs, after, snap, key_arg=key, value=repr(value)[:60])
 
+
+    # ------------------------------------------------------------ one element over a flow of values
+    def flow_expected(self, group, j, val, special):
+        """allowed [out, post] of value j of the flow (over the alternative behaviours of the spec)"""
+        outs = []
+        for r in group:
+            if j < len(r["results"]):
+                x = r["results"][j]
+                e = {"ok": x["out"]["ok"], "post": cl.decode_s(x["post"], val, special)}
+                if not e["ok"]:
+                    e["exc"] = x["out"]["exc"]
+                if e not in outs:
+                    outs.append(e)
+        return outs
+
+    def args_changed(self, name, rec, now, snap, what):
+        try:
+            same = now == snap
+        except RecursionError:
+            same = False
+        if not same:
+            self.fail("%s:constructor-argument-changed" % name, rec, argument=what, before=repr(snap)[:120],
+                      after=repr(now)[:120])
+
+    def rp_flow(self, group, val):
+        """The same element instance (and a second one built from the same argument objects) is applied
+        to every value of the flow; every result must be the single-call result for that value, and the
+        argument objects given to the constructor stay as they were."""
+        rec = group[0]
+        c, flow, path = rec["call"], rec["flow"], rec["call"]["path"]
+        op = c["op"]
+        pristine_default = ["dflt"]
+
+        def special_for(j, pyctx, fmt):
+            return {"$default": copy.deepcopy(pristine_default),
+                    "$rendered": render(rec["rends"][j], pyctx, c["tpl"], fmt)}
+
+        def disturb(after):
+            # what happens to a result afterwards must not reach the element or later results
+            found, stored = cl.lookup(after, path)
+            if found and isinstance(stored, dict):
+                stored["changed-later"] = 1
+            elif found and isinstance(stored, list):
+                stored.append("changed-later")
+
+        if op == "update":
+            dflt = copy.deepcopy(pristine_default)
+            update, kwargs = self.update_args(c, val, {"$default": dflt})
+            subctx = ".".join(path)
+            snap_args = copy.deepcopy((update, kwargs))
+            made = [observe(lambda: self.fns.UpdateContext(subctx, update, **kwargs)) for _ in range(2)]
+            self.args_changed("UpdateContext", rec, (update, kwargs), snap_args, "update / default")
+            if not (made[0]["ok"] and made[1]["ok"]):
+                pyctx = cl.decode_s(flow[0], val, {})
+                bad = made[0] if not made[0]["ok"] else made[1]
+                self.judge("UpdateContext", group, val, {}, bad, pyctx, copy.deepcopy(pyctx),
+                           exps=self.flow_expected(group, 0, val, {"$default": dflt, "$rendered": ""}))
+                return
+            for j in range(len(flow)):
+                for which, m in enumerate(made):
+                    pyctx = cl.decode_s(flow[j], val, {}, self.rnd)
+                    snap = copy.deepcopy(pyctx)
+                    special = special_for(j, pyctx, str)
+                    data = ["data", j]
+                    obs = observe(lambda: m["r"]((data, pyctx)))
+                    self.ncalls += 1
+                    after = pyctx
+                    if obs["ok"]:
+                        r = obs["r"]
+                        if not (isinstance(r, tuple) and len(r) == 2 and isinstance(r[1], dict)
+                                and r[0] is data and data == ["data", j]):
+                            self.fail("UpdateContext(reused):data-touched", rec, context=snap, value_number=j)
+                            return
+                        after = r[1]
+                    name = "UpdateContext(reused)" if which == 0 else "UpdateContext(second element, same arguments)"
+                    if not self.judge(name, group, val, special, obs, after, snap, value_number=j, flow=flow,
+                                      exps=self.flow_expected(group, j, val, special)):
+                        return
+                    if obs["ok"] and (c["uk"] == "simple" or c["o"]["def"]):
+                        disturb(after)
+            self.args_changed("UpdateContext", rec, (update, kwargs), snap_args, "update / default")
+        elif op == "delete":
+            forms = [("list", list(path)), ("tuple", tuple(path))]
+            if cl.dotted_ok(path):
+                forms.append(("string", ".".join(path)))
+            for fname, key in forms:
+                snap_key = copy.deepcopy(key)
+                made = [observe(lambda: self.fns.DeleteContext(key)) for _ in range(2)]
+                if not (made[0]["ok"] and made[1]["ok"]):
+                    pyctx = cl.decode_s(flow[0], val, {})
+                    bad = made[0] if not made[0]["ok"] else made[1]
+                    self.judge("DeleteContext" if path else "DeleteContext(empty key)", group, val, {}, bad, pyctx,
+                               copy.deepcopy(pyctx), exps=self.flow_expected(group, 0, val, {}))
+                    continue
+                stop = False
+                for j in range(len(flow)):
+                    for which, m in enumerate(made):
+                        pyctx = cl.decode_s(flow[j], val, {}, self.rnd)
+                        snap = copy.deepcopy(pyctx)
+                        data = ["data"]
+                        obs = observe(lambda: m["r"]((data, pyctx)))
+                        self.ncalls += 1
+                        after = pyctx
+                        if obs["ok"] and isinstance(obs["r"], tuple) and len(obs["r"]) == 2 \
+                                and isinstance(obs["r"][1], dict):
+                            after = obs["r"][1]
+                        name = "DeleteContext(reused)" if which == 0 else "DeleteContext(second element, same arguments)"
+                        if not path:
+                            name = "DeleteContext(empty key)"
+                        if not self.judge(name, group, val, {}, obs, after, snap, value_number=j, flow=flow,
+                                          key_arg=repr(key), exps=self.flow_expected(group, j, val, {})):
+                            stop = True
+                            break
+                    if stop:
+                        break
+                self.args_changed("DeleteContext", rec, key, snap_key, "key (%s)" % fname)
+        elif op == "fuw":
+            key = ".".join(path)
+            if c["uk"] == "simple":
+                value = cl.decode_s(c["uv"], val, {}, self.rnd)
+            elif c["uk"] == "bad":
+                value = self.rnd.choice(BAD_TEMPLATES)
+            else:
+                value = cl.template_text(c["tpl"])
+            snap_value = copy.deepcopy(value)
+            fmt = lambda v: "{}".format(v)
+            for j in range(len(flow)):
+                pyctx = cl.decode_s(flow[j], val, {}, self.rnd)
+                snap = copy.deepcopy(pyctx)
+                special = special_for(j, pyctx, fmt)
+                obs = observe(lambda: self.fns.format_update_with(key, value, pyctx))
+                self.ncalls += 1
+                self.args_changed("format_update_with", rec, value, snap_value, "value")
+                if not self.judge("format_update_with(repeated)", group, val, special, obs, pyctx, snap,
+                                  value_number=j, flow=flow, exps=self.flow_expected(group, j, val, special)):
+                    break
+            if hasattr(self.lena.meta, "SetContext"):
+                made = observe(lambda: self.lena.meta.SetContext(key, value))
+                for j in range(len(flow)):
+                    pyctx = cl.decode_s(flow[j], val, {}, self.rnd)
+                    snap = copy.deepcopy(pyctx)
+                    special = special_for(j, pyctx, fmt)
+
+                    def via(el=made.get("r")):
+                        el._set_context(pyctx)
+                        return el._get_context()
+                    obs = made if not made["ok"] else observe(via)
+                    self.ncalls += 1
+                    if obs["ok"] and not isinstance(obs["r"], dict):
+                        break
+                    after = obs["r"] if obs["ok"] else pyctx
+                    if not self.judge("SetContext(reused)", group, val, special, obs, after, snap, value_number=j,
+                                      flow=flow, exps=self.flow_expected(group, j, val, special)):
+                        break
+                self.args_changed("SetContext", rec, value, snap_value, "value")
+
     # ------------------------------------------------------------ dispatch
     def run_group(self, group, nval):
         rec = group[0]
         op = rec["call"]["op"]
-        syms = cl.symbols_s([rec["ctx"], rec["ctx2"], rec["call"]["uv"]])
+        syms = cl.symbols_s([rec["flow"], rec["ctx2"], rec["call"]["uv"]])
         self.kb = None
         pool_json = op == "tostr"
-        small = cl.size(rec["ctx"]) <= 2 and len(syms) <= 1 and op != "tostr"
+        small = cl.size(rec["ctx"]) <= 2 and len(syms) <= 1 and op != "tostr" and len(rec["flow"]) == 1
         vals = cl.valuations(syms, self.rnd, nval, systematic=small)
         uvsyms = cl.symbols_s([rec["call"]["uv"]]) if op == "update" else ()
         for val in vals:
@@ -433,7 +589,9 @@ class Replay(object):
                     val[sym] = self.rnd.randrange(len(cl.PYCLASSES))
             if pool_json:
                 val = dict(zip(sorted(val), self.rnd.sample(JSON_POOL, len(val))))
-            if op == "get":
+            if len(rec["flow"]) > 1:
+                self.rp_flow(group, val)
+            elif op == "get":
                 self.rp_get(rec, val)
             elif op == "contains":
                 self.rp_contains(rec, val)
@@ -458,7 +616,7 @@ def group_records(recs):
     groups = {}
     order = []
     for rec in recs:
-        k = core.canon([rec["call"], rec["ctx"], rec["ctx2"]])
+        k = core.canon([rec["call"], rec["flow"], rec["ctx2"]])
         if k not in groups:
             groups[k] = []
             order.append(k)
@@ -524,6 +682,7 @@ def random_trace(ctx, fns, lena, fails, n):
         call = {"op": "", "path": [], "dflt": False, "tpl": [], "uk": "none", "uv": cl.EMPTY, "o": dict(noopts)}
         x = rnd.random()
         rs = cl.EMPTY
+        reuse = None        # (element, pristine copy of a simple update value)
         try:
             if x < 0.2:
                 call["op"], call["path"], call["dflt"] = "get", rpath(d), rnd.random() < 0.4
@@ -572,14 +731,20 @@ def random_trace(ctx, fns, lena, fails, n):
                     call["uv"] = enc.enc(copy.deepcopy(upd))
                 else:
                     rs = enc.enc(rs_py)
-                obs = observe(lambda: fns.UpdateContext(".".join(call["path"]), upd, **kwargs)((["data"], d)))
+                made = observe(lambda: fns.UpdateContext(".".join(call["path"]), upd, **kwargs))
+                obs = made if not made["ok"] else observe(lambda: made["r"]((["data"], d)))
+                if made["ok"]:
+                    reuse = (made["r"], copy.deepcopy(upd))
                 if obs["ok"]:
                     obs["r"] = obs["r"][1]
             elif x < 0.82:
                 call["op"], call["path"] = "delete", rpath(d, 1, 4)
                 key = rnd.choice([list(call["path"]), tuple(call["path"]), ".".join(call["path"])])
                 before = enc.enc(snap)
-                obs = observe(lambda: fns.DeleteContext(key)((["data"], d)))
+                made = observe(lambda: fns.DeleteContext(key))
+                obs = made if not made["ok"] else observe(lambda: made["r"]((["data"], d)))
+                if made["ok"]:
+                    reuse = (made["r"], None)
                 if obs["ok"]:
                     obs["r"] = obs["r"][1]
             else:
@@ -616,6 +781,33 @@ def random_trace(ctx, fns, lena, fails, n):
         else:
             out = {"ok": False, "exc": obs["exc"]}
         trace.append({"call": call, "ctx": before, "out": out, "post": enc.enc(d), "rs": rs})
+        # the same element instance on further values (an equal one, a changed one)
+        for again in range(2 if reuse else 0):
+            el, pristine = reuse
+            d2 = copy.deepcopy(snap)
+            if again == 1 or rnd.random() < 0.5:
+                for k in rnd.sample(keys, 2):
+                    if rnd.random() < 0.5:
+                        d2.pop(k, None)
+                    else:
+                        d2[k] = rnd.choice(leaves)() if rnd.random() < 0.5 else cl.random_dict(rnd, keys, 2, leaves)
+            snap2 = copy.deepcopy(d2)
+            enc2 = cl.EncoderS([(dflt, cl.DEFAULT_LEAF)], by_eq=True)
+            before2 = enc2.enc(snap2)
+            call2 = copy.deepcopy(call)
+            rs2 = cl.EMPTY
+            if call["op"] == "update" and call["uk"] == "simple":
+                call2["uv"] = enc2.enc(pristine)
+            elif call["op"] == "update":
+                rs2 = enc2.enc(render([{"t": "lit", "s": t["s"]} if t["t"] == "lit" else {"t": "val"}
+                                       for t in call["tpl"]], snap2, call["tpl"], str))
+            obs2 = observe(lambda: el((["data"], d2)))
+            if cl.has_cycle(d2):
+                fails.add("%s:context-contains-itself" % trace_key({"call": call, "out": {"ok": True}}).split(":")[0],
+                          10 ** 6, {"call": call, "context": snap2})
+                break
+            out2 = {"ok": True, "r": enc2.enc(obs2["r"][1])} if obs2["ok"] else {"ok": False, "exc": obs2["exc"]}
+            trace.append({"call": call2, "ctx": before2, "out": out2, "post": enc2.enc(d2), "rs": rs2})
     return trace
 
 
@@ -684,7 +876,11 @@ def run(ctx):
                            must_cover=[a for a in ACTIONS if a != "S2D"])
         f_laws = jobs.submit(ctx.mc, "ContextOps", "ContextOps_%s_laws.cfg" % tag)
         f_make = jobs.submit(ctx.mc, "ContextOps", "ContextOps_make.cfg", coverage=True, must_cover=("UMake", "S2D"))
+        # elements applied to a flow of three values: stateless, every outcome a function of (config, value)
+        f_flow = jobs.submit(ctx.mc, "ContextOps", "ContextOps_%s_flow.cfg" % tag, coverage=True,
+                             must_cover=("NextValue", "USet", "DDel", "WUpdate"))
         exports = [jobs.submit(ctx.export, "ContextOps", "ContextOps_make_export.cfg", min_records=100),
+                   jobs.submit(ctx.export, "ContextOps", "ContextOps_%s_flow_export.cfg" % tag, min_records=1000),
                    jobs.submit(ctx.export, "ContextOps", "ContextOps_%s_export.cfg" % tag, min_records=1000)]
         f_repo = jobs.submit(repo_job)
         trace = random_trace(ctx, fns, lena, rp.fails, 20000 if ctx.thorough else 3000)
@@ -708,7 +904,7 @@ def run(ctx):
             for group in group_records(recs):
                 rp.run_group(group, nval)
                 rec = group[0]
-                ctx.case([rec["call"], rec["ctx"], rec["ctx2"]],
+                ctx.case([rec["call"], rec["flow"], rec["ctx2"]],
                          nontrivial=bool(cl.items(rec["ctx"])) or rec["call"]["op"] in ("s2d", "update"))
             del recs
         ctx.extra["implementation_calls_s2c"] = rp.ncalls
@@ -716,6 +912,7 @@ def run(ctx):
         f_mc.result()
         f_laws.result()
         f_make.result()
+        f_flow.result()
         cl.account_trace(ctx, tmod, trace, f_trace.result(), trace_key)
         f_demo.result()
         if ctx.thorough:
